@@ -705,6 +705,15 @@ func init() {
 				ls = append(ls, map[string]any{"layer": l.Name, "parsers": l.Kinds, "buffer_sizes": l.BufSizes, "prior": l.Prior.Name, "next": l.Next.Name, "prior_modes": l.Modes, "reset_kinds": "Reset(nil), Reset(data) with spare capacity 0/7/64 (poisoned)", "deviation_bound": l.Bound})
 			}
 			return map[string]any{"sequential": ls,
+				"concurrent_loop_level": map[string]any{"scenarios": func() []string {
+					var n []string
+					for _, sc := range LoopScenarios(tier) {
+						n = append(n, fmt.Sprintf("%s (preemption bound %d)", sc.Name, loopBound(tier, sc)))
+					}
+					return n
+				}(), "yield_points": "generated at build time by cmd/yieldgen: first statement of every function and every for/range body of package lz of the current tree (go build -overlay); several hundred dynamic points per execution (max_yield_points_per_execution)",
+					"thread_script": "NewParser, default Write/Parse/Shrink loop over the input, Reset(nil) + second stream, Reset(data) + third stream; Decoder threads write the blocks of a solo parser run and Flush",
+					"oracle":        "each thread's observations equal those of the same script run alone"},
 				"concurrent": "operation-level: 2 threads (every unordered pair of the seven parser types, one thread ending with Reset(data)+Parse; every parser type with a Decoder) and 3-thread scenarios; distinct instances; ALL interleavings of the yield points between API calls are enumerated (no preemption bound)"}
 		},
 		Rule:        "sequential: cases are (configuration, prior input, prior mode, Reset kind, next input, choice sequence); distinct_nontrivial counts (configuration, prior, next) triples; concurrent: distinct schedules (sequence of thread ids)",
